@@ -361,6 +361,8 @@ fn short_sys_name(n: &str) -> String {
             seg.push(c);
         } else if c == ':' {
             seg.clear();
+        } else if c == '.' {
+            seg.push('.');
         } else {
             out.push_str(&seg);
             seg.clear();
@@ -484,8 +486,9 @@ impl Session {
             w.entity_mut(e).set_parent(pe);
         }
         self.handles.insert(h, (peer, e));
+        let cb: Vec<Value> = comps.iter().map(|c| json!({"ty": c.ty.name(), "bytes": self.comp_bytes(peer, e, c.ty)})).collect();
         self.trace.push(json!({"ev":"op","op":"spawn","peer":peer,"h":h,"mark":mark,
-            "comps": comps.iter().map(|c| c.json()).collect::<Vec<_>>(), "parent": parent}));
+            "comps": comps.iter().map(|c| c.json()).collect::<Vec<_>>(), "comp_bytes": cb, "parent": parent}));
     }
 
     pub fn despawn(&mut self, peer: u32, h: u32) -> bool {
@@ -517,8 +520,34 @@ impl Session {
             return false;
         }
         insert_cval(w, e, v, &joints);
-        self.trace.push(json!({"ev":"op","op":"write","peer":peer,"h":h,"val":v.json(),"joints":joint_handles}));
+        let bytes = self.comp_bytes(peer, e, v.ty);
+        self.trace.push(json!({"ev":"op","op":"write","peer":peer,"h":h,"val":v.json(),"joints":joint_handles,"bytes":bytes,
+            "uuid": self.handle_uuid.get(&h).map(|u| hex(u.as_bytes()))}));
         true
+    }
+
+    /// reflect bytes of one component of one local entity (what the snapshot prints for it)
+    pub fn comp_bytes(&mut self, peer: u32, e: Entity, ty: Ty) -> Option<String> {
+        let world = self.peers[peer as usize].app.world_mut();
+        let registry = world.resource::<AppTypeRegistry>().clone();
+        let registry = registry.read();
+        let er = world.get_entity(e)?;
+        macro_rules! comp {
+            ($t:ty) => {
+                er.get::<$t>().and_then(|c| verif::reflect_to_bin(c.as_reflect(), &registry).ok()).map(|b| hex(&b))
+            };
+        }
+        match ty {
+            Ty::A => comp!(CompA),
+            Ty::B => comp!(CompB),
+            Ty::E => comp!(CompE),
+            Ty::V => comp!(CompV),
+            Ty::U => comp!(CompU),
+            Ty::Transform => comp!(Transform),
+            Ty::Name => comp!(Name),
+            Ty::Visibility => comp!(Visibility),
+            _ => None,
+        }
     }
 
     pub fn set_parent(&mut self, peer: u32, child: u32, parent: u32) -> bool {
@@ -590,7 +619,15 @@ impl Session {
         let p = &mut self.peers[peer as usize];
         let Some(sched) = p.app.get_schedule(Update) else { return };
         let Ok(iter) = sched.systems() else { return };
-        let names: Vec<String> = iter.map(|(_, s)| short_sys_name(&s.name())).collect();
+        let names: Vec<String> = iter.map(|(_, s)| short_sys_name(
+            &s.name()
+                .replace("bevy_sync::server::track::", "server.")
+                .replace("bevy_sync::server::receiver::", "server.")
+                .replace("bevy_sync::server::", "server.")
+                .replace("bevy_sync::client::track::", "client.")
+                .replace("bevy_sync::client::receiver::", "client.")
+                .replace("bevy_sync::client::", "client."),
+        )).collect();
         if p.sched_dumped.as_ref() != Some(&names) {
             p.sched_dumped = Some(names.clone());
             self.trace.push(json!({"ev":"sched","peer":peer,"order":names}));
@@ -609,18 +646,43 @@ impl Session {
         let r = crate::catch(std::panic::AssertUnwindSafe(|| app_ptr.update()));
         self.peers[peer as usize].frames += 1;
         let tap = verif::drain_tap();
+        let senders = verif::drain_tap_senders();
+        let recv = self.recv_json(&tap, &senders);
         if let Err(msg) = r {
             self.peers[peer as usize].dead = true;
             self.panicked = Some((peer, msg.clone()));
             self.trace.push(json!({"ev":"frame","peer":peer,"n":self.peers[peer as usize].frames,
-                "recv": tap.iter().map(|(_, s, m)| msg_json(*s, m)).collect::<Vec<_>>(), "panic": msg}));
+                "recv": recv, "panic": msg}));
             return;
         }
         self.dump_schedule(peer);
         self.bind_handles(peer);
         let state = self.snapshot(peer);
         self.trace.push(json!({"ev":"frame","peer":peer,"n":self.peers[peer as usize].frames,
-            "recv": tap.iter().map(|(_, s, m)| msg_json(*s, m)).collect::<Vec<_>>(), "state": state, "panic": Value::Null}));
+            "recv": recv, "state": state, "panic": Value::Null}));
+    }
+
+    /// received messages of one frame, each with the peer that sent it (clients are identified by
+    /// the renet client id of their current transport; a client's messages come from the host)
+    fn recv_json(&mut self, tap: &[(u32, bool, verif::VMessage)], senders: &[u64]) -> Vec<Value> {
+        let mut ids: HashMap<u64, u32> = HashMap::new();
+        for p in self.peers.iter() {
+            if let Some(t) = p.app.world().get_resource::<NetcodeClientTransport>() {
+                ids.insert(t.client_id().raw(), p.id);
+            }
+        }
+        let mut k = 0;
+        let mut out = vec![];
+        for (_, as_server, m) in tap {
+            let mut v = msg_json(*as_server, m);
+            if *as_server {
+                let from = senders.get(k).and_then(|c| ids.get(c)).map(|p| json!(p)).unwrap_or(Value::Null);
+                v["from"] = from;
+                k += 1;
+            }
+            out.push(v);
+        }
+        out
     }
 
     fn bind_handles(&mut self, peer: u32) {
